@@ -373,6 +373,8 @@ class SSPOC(BaseEstimator):
             raise ValueError("At least one of n_sensors or threshold must be passed.")
 
         elif n_sensors is not None:
+            if not isinstance(n_sensors, INT_DTYPES) or n_sensors < 0:
+                raise ValueError("n_sensors must be a nonnegative integer")
             if n_sensors > len(self.sensor_coef_):
                 raise ValueError(
                     f"n_sensors({n_sensors}) cannot exceed number of available "
